@@ -184,26 +184,27 @@ theorem C06_abs_assign (s : State) (a : Nat) (val : Val) (hwf : s.WF) (hfix : Fi
   have habs := C06_abs tr trp s.env val hf0 a
   have hassign : s.assign (.abs a) =
       (match preproAbs s.env a with
+       | .raise w => (s, Res.throw w)
        | .redirect c2 =>
          (match (State.resultVar (s.assignBase c2)).2 with
           | some v => ((State.resultVar (s.assignBase c2)).1, Res.var v)
           | none => ((State.resultVar (s.assignBase c2)).1, Res.unsupported))
        | .unsupported => (s, .unsupported)
        | _ => s.assignBase (.abs a)) := by
-    simp only [State.assign, argNarrowing, prepro]
+    simp only [State.assign, argNarrowing, preproO, prepro]
     rfl
   rw [hassign] at hf hd ⊢
   cases hp : preproAbs s.env a with
   | «alias» v' =>
     rw [hp] at habs hf hd
     simp only at habs hf hd ⊢
-    simp only [State.assignBase, prepro, hp] at hf hd ⊢
+    simp only [State.assignBase, preproO, prepro, hp] at hf hd ⊢
     exact ⟨fun c h => by simp at h, fun v h => by injection h with h; subst h; exact habs⟩
   | keep pre c =>
     rw [hp] at habs hf hd
     simp only at habs hf hd ⊢
     obtain ⟨rfl, hcont⟩ := habs
-    simp only [State.assignBase, prepro, hp] at hf hd ⊢
+    simp only [State.assignBase, preproO, prepro, hp] at hf hd ⊢
     obtain ⟨h1, h2⟩ := C06_finish_sound tr trp s pre (.abs a) val _ hwf hcont rfl
     exact ⟨h1, fun v h => h2 v h hd⟩
   | redirect c2 =>
@@ -213,7 +214,7 @@ theorem C06_abs_assign (s : State) (a : Nat) (val : Val) (hwf : s.WF) (hfix : Fi
     -- conversion of −x
     obtain ⟨pre, hpre, hcont⟩ := C06_lin tr trp s.env val hf0 0 [(-1, a)]
     have hbase : s.assignBase (.lin 0 [(-1, a)]) = s.finish pre (.lin 0 [(-1, a)]) := by
-      simp only [State.assignBase, hpre]
+      simp only [State.assignBase, preproO, hpre]
     rw [hbase] at hf hd ⊢
     obtain ⟨h1, h2⟩ := C06_finish_sound tr trp s pre (.lin 0 [(-1, a)]) val _ hwf hcont rfl
     cases hrv : (State.resultVar (s.finish pre (.lin 0 [(-1, a)]))).2 with
@@ -241,6 +242,7 @@ theorem C06_abs_assign (s : State) (a : Nat) (val : Val) (hwf : s.WF) (hfix : Fi
         rw [this]; exact hfix
       exact C06_resultVar_sound (s.finish pre (.lin 0 [(-1, a)])).1 (s.finish pre (.lin 0 [(-1, a)])).2 val _ hst h1 hvar v' hf hrv
   | unsupported => rw [hp] at habs; exact habs.elim
+  | raise w => rw [hp] at habs; exact habs.elim
 
 /-! ## 0/1-valued results, counting -/
 
